@@ -96,3 +96,9 @@ add("C19",
     "~45 modules x ~5 enums x ~60 probes (quick), 12x more in thorough: underlying type signedness/width, each enumerator per spelling, name->value only for declared Emboss names, value->first declared name or null, EnumIsKnown, operator<< (numeric rendering not compared for 8-bit types), enum field reads of named/unnamed raw values.",
     "Trusts: the model->expectation mapping written from cpp-reference.md / language-reference.md; g++ 12; signed enums in fields narrower than their C++ type are a recorded known finding.",
     "DESIGN.md §4 C19")
+
+add("C20",
+    "differential property-based testing: layout-generator structs compiled with g++; buffer pairs (identical, single-bit flips in covered and padding bytes, different lengths, not-Ok sources, short destinations) and overlapping windows of one allocation; Equals (both directions) and TryToCopyFrom (result, destination bytes, Ok) compared with embref's logical equality / copy model",
+    "~40 modules x ~120 pair commands (quick) to ~500 modules (thorough): Equals <=> same presence and equal present physical fields recursively, symmetric, blind to padding; TryToCopyFrom succeeds exactly when source Ok and destination long enough, copies exactly the source's size with memmove semantics.",
+    "Trusts: embref (already validated against the tree by C01); only parameterless top-level structs are paired.",
+    "DESIGN.md §4 C20")
